@@ -10,16 +10,16 @@ import (
 // ivInfo describes a counted loop variable: phi = [init, phi+step], guarded by "phi < bound" /
 // "phi <= bound" / "phi > bound" at the loop header.
 type ivInfo struct {
-	Phi      *ssa.Phi
-	Init     ssa.Value
-	InitC    int64 // valid if InitIsC
-	InitIsC  bool
-	Step     int64
-	Cond     *ssa.BinOp // loop condition (nil if none found)
-	Op       token.Token
-	Bound    ssa.Value
-	BoundC   int64
-	BoundIsC bool
+	Phi        *ssa.Phi
+	Init       ssa.Value
+	InitC      int64 // valid if InitIsC
+	InitIsC    bool
+	Step       int64
+	Cond       *ssa.BinOp // loop condition (nil if none found)
+	Op         token.Token
+	Bound      ssa.Value
+	BoundC     int64
+	BoundIsC   bool
 	BodyOnTrue bool
 }
 
